@@ -706,6 +706,54 @@ def t14(ctx, rid):
     c09.p7(ctx, rid)
 
 
+def t15(ctx, rid):
+    """an index file is built into an empty file: IoDriver::create does not truncate and the io layer appends at the cached
+    length, so a second dump of a blob's index (after a delete into the closed blob, after restore + close) would land behind
+    the old tree and the rewritten header at offset 0 would point lookups into stale leaves.  Every path of a
+    FileIndexTrait::from_records to its IoDriver::create passes `the file was truncated (a truncating create succeeded) or
+    does not exist (the false edge of an exists() test)` - directly or in a helper such as clean_file."""
+    prog = ctx.prog
+
+    def absent_edges(fn):
+        out = []
+        for i in fn.reachable():
+            t = fn.blocks[i]['t']
+            if t['k'] != 'switch':
+                continue
+            ogs = core.origins(fn, t['o'])
+            neg = False
+            if ogs and all(o.kind == 'unop' and o.data.get('op') == 'Not' for o in ogs):
+                neg = True
+                ogs = [x for o in ogs for x in core.origins(fn, o.data['o'])]
+            if not ogs or not all(o.kind == 'call' and o.data.name in ('exists', 'try_exists') for o in ogs):
+                continue
+            for v, tg in t['vals']:
+                if v == 0 and not neg:
+                    out.append(tg)
+            if neg:
+                out.append(t['otherwise'])
+        return out
+    S = core.Summ(prog, lambda c: prims.is_raw(c, prims.RAW_CREATE_TRUNC) or prims.is_raw(c, prims.RAW_REMOVE), excuse=absent_edges)
+    n = 0
+    for f in prog.fns.values():
+        root = prog.fns[f.id].root
+        if prog.fns[root].trait_item != 'blob::index::core::FileIndexTrait::from_records':
+            continue
+        for c in f.calls:
+            if c.bb not in f.reachable() or c.name != 'create' or 'IoDriver' not in c.path:
+                continue
+            n += 1
+            key = 'index-built-into-empty-file|%s' % root
+            ev = set(S.events(f)) | set(absent_edges(f))
+            if c.bb in f.reach_from([0], avoid_enter=ev):
+                ctx.bad(rid, key, c.where(), 'the index file is created (IoDriver::create does not truncate) on a path where an existing file was not emptied: '
+                        'a second dump of the index is appended behind the old one and lookups follow the new header into the stale tree')
+            else:
+                ctx.ok(rid, key, c.where(), 'every path passes a successful truncating create / remove or the not-exists edge (in a helper)')
+    if n < 1:
+        raise core.AnchorLost('IoDriver::create in FileIndexTrait::from_records impls: %d' % n)
+
+
 RULES = [
     Rule('C04.T1', 'every value stored into the active-blob slot is certified to have an in-memory index (open_new, load_index ok, or popped after load_index ok on the last element)', t1, 7),
     Rule('C04.T2', 'every index push is dominated by an InMemory-establishing event, in the body or in every caller, or acts on the active-blob slot', t2, 3),
@@ -720,5 +768,6 @@ RULES = [
     Rule('C04.T12', 'cursors over the on-disk leaf region move by whole record headers (alignment domain)', t12, 4),
     Rule('C04.T13', 'the filters a closed blob is merged into stay a superset of it; buffers are off-loaded only from on-disk indexes (C10.B9/B6 instances)', t13, 3),
     Rule('C04.T14', 'the active blob is counted as a source of the cross-blob merge; the serializer layer passes agree (C02.U14 / C09.P7 instances)', t14, 3),
+    Rule('C04.T15', 'an index file is built into an emptied or absent file (IoDriver::create does not truncate)', t15, 1),
     Rule('C04.T6', 'the closed-blob vector (child ids are positions) is never shrunk', t6, 4),
 ]
